@@ -37,6 +37,19 @@ def run_property(prop, tier, seed, replay):
         if "trace" not in body:
             print("replay names a proof obligation / correspondence, no input: %s" % body.get("what"))
             return 1
+        if body.get("profile") in ("limit", "cfg"):
+            # timed lifecycles / configurations are re-generated from the recorded seed
+            rep = {"errors": [], "cases": 0, "events": 0, "distribution": {}, "samples": [], "suites": [],
+                   "trace_files": [], "distribution": {}}
+            sub = {body["profile"]: cfg.get(body["profile"])}
+            dd, _ = run_conc_suites(prop, sub, body.get("tier", "quick"), body.get("seed", seed), work, rep)
+            if not dd and not rep["errors"]:
+                print("replay: implementation and model agree on the re-generated %s suite" % body["profile"])
+                return 0
+            for x in dd[:3]:
+                print("replay: case %s, first difference: implementation %r / model %r" % (x[1], x[4], x[5]))
+            print("VIOLATION property=%s replay=%s" % (prop, replay))
+            return 1
         d = replay_trace(body["trace"], work, "replay", body.get("profile", "seq"))
         if d is None:
             print("replay: implementation and model agree on this input")
@@ -139,7 +152,7 @@ def run_property(prop, tier, seed, replay):
             small = minimize(trace_lines, work, profile)
         relevant, kind = classify(prop, cfg, il, ml)
         body = {"what": "implementation and model disagree (%s correspondence, suite %s, case %s)" % (profile, tag, cid),
-                "profile": profile,
+                "profile": profile, "seed": seed, "tier": tier,
                 "first_difference": {"observation_index": idx, "implementation": il, "model": ml, "kind": kind},
                 "trace": small, "theorems": names}
         key = json.dumps(small)
